@@ -122,7 +122,7 @@
 (declare-fun termsWF (Seq_Node Int) Bool)
 (assert (forall ((l Seq_Node) (n Int)) (! (= (termsWF l n) (ite (<= n 0) true (and (termsWF l (- n 1))
    ((_ is mk_SortTerm) (Seq_Node.nth l (- n 1))) (exprWF (SortTerm.X (Seq_Node.nth l (- n 1))))))) :pattern ((termsWF l n)))))
-(define-fun opWF ((source Str) (op Node)) Bool
+(define-fun-rec opWF ((source Str) (op Node)) Bool
   (or (= op nilN) ((_ is mk_AsOperator) op) ((_ is mk_CountOperator) op)
       (and ((_ is mk_ProjectOperator) op) (projColsWF (ProjectOperator.Cols op) (Seq_Node.len (ProjectOperator.Cols op))))
       (and ((_ is mk_ExtendOperator) op) (extColsWF source (ExtendOperator.Cols op) (Seq_Node.len (ExtendOperator.Cols op))))
@@ -130,8 +130,8 @@
            (sumColsWF source (SummarizeOperator.GroupBy op) (Seq_Node.len (SummarizeOperator.GroupBy op))))
       (and ((_ is mk_WhereOperator) op) (exprWF (WhereOperator.Predicate op)))
       (and ((_ is mk_RenderOperator) op) ((_ is mk_Ident) (RenderOperator.ChartType op)) (propsWF (RenderOperator.Props op) (Seq_Node.len (RenderOperator.Props op))))))
-(define-fun sortWF ((srt Node)) Bool (or ((_ is nilp) srt) (and ((_ is mk_SortOperator) srt) (termsWF (SortOperator.Terms srt) (Seq_Node.len (SortOperator.Terms srt))))))
-(define-fun takeWF ((take Node)) Bool (or ((_ is nilp) take) (and ((_ is mk_TakeOperator) take) (exprWF (TakeOperator.RowCount take)))))
+(define-fun-rec sortWF ((srt Node)) Bool (or ((_ is nilp) srt) (and ((_ is mk_SortOperator) srt) (termsWF (SortOperator.Terms srt) (Seq_Node.len (SortOperator.Terms srt))))))
+(define-fun-rec takeWF ((take Node)) Bool (or ((_ is nilp) take) (and ((_ is mk_TakeOperator) take) (exprWF (TakeOperator.RowCount take)))))
 (lemma projColsWF-nth :induction n (forall ((l Seq_Node) (n Int) (i Int)) (! (=> (and (projColsWF l n) (<= 0 i) (< i n))
    (and ((_ is mk_ProjectColumn) (Seq_Node.nth l i)) ((_ is mk_Ident) (ProjectColumn.Name (Seq_Node.nth l i))) (or (= (ProjectColumn.X (Seq_Node.nth l i)) nilN) (exprWF (ProjectColumn.X (Seq_Node.nth l i)))))) :pattern ((projColsWF l n) (Seq_Node.nth l i)))))
 (lemma extColsWF-nth :induction n (forall ((s Str) (l Seq_Node) (n Int) (i Int)) (! (=> (and (extColsWF s l n) (<= 0 i) (< i n))
@@ -145,3 +145,16 @@
         (not ((_ is nilp) (RenderProperty.Value (Seq_Node.nth l i)))) (=> ((_ is mk_QualifiedIdent) (RenderProperty.Value (Seq_Node.nth l i))) (exprWF (RenderProperty.Value (Seq_Node.nth l i)))))) :pattern ((propsWF l n) (Seq_Node.nth l i)))))
 (lemma termsWF-nth :induction n (forall ((l Seq_Node) (n Int) (i Int)) (! (=> (and (termsWF l n) (<= 0 i) (< i n))
    (and ((_ is mk_SortTerm) (Seq_Node.nth l i)) (exprWF (SortTerm.X (Seq_Node.nth l i))))) :pattern ((termsWF l n) (Seq_Node.nth l i)))))
+
+; ---- subquery plan (DESIGN.md Appendix B)
+; generated subquery names: "__subquery<i>" (fmt.Sprintf with %d: assumed injective in i)
+(declare-fun sqn (Int) Str)
+(declare-fun sqnInv (Str) Int)
+(assert (forall ((i Int)) (! (= (sqnInv (sqn i)) i) :pattern ((sqn i)))))
+(define-fun typedAs ((op Node) (tag Int)) Bool (or (= (tagOf op) tag) (= op (nilp tag))))
+(define-fun canAttach ((op Node)) Bool
+  (not (or (typedAs op tag.ProjectOperator) (typedAs op tag.SummarizeOperator) (typedAs op tag.AsOperator) (typedAs op tag.RenderOperator))))
+(define-fun srcWF ((src Node)) Bool (and ((_ is mk_TableRef) src) ((_ is mk_Ident) (TableRef.Table src))))
+(define-fun tableNameOf ((src Node)) Str (Ident.Name (TableRef.Table src)))
+(define-fun tableSQL ((src Node)) Str (Out.str (QI (Ident.Name (TableRef.Table src)) OEmpty)))
+(define-fun refSQL ((name Str)) Str (Out.str (QI name OEmpty)))
